@@ -116,13 +116,47 @@ def parents_map(root):
 # repository model
 # ----------------------------------------------------------------------------
 
+_SWAP_OPS = {ast.NotEq: ast.Eq, ast.IsNot: ast.Is, ast.NotIn: ast.In, ast.Gt: ast.LtE, ast.GtE: ast.Lt}
+
+
+def normalise_tree(tree):
+    """One control shape for equivalent phrasings, applied to every module when it is loaded (line numbers kept):
+    annotated assignments become plain ones; a two-armed conditional whose test is negated (`not c`, `!=`, `is not`,
+    `not in`, `>`, `>=`) is turned around."""
+    class C(ast.NodeTransformer):
+        def visit_AnnAssign(self, n):
+            self.generic_visit(n)
+            if n.value is None:
+                return n
+            return ast.copy_location(ast.Assign(targets=[n.target], value=n.value), n)
+
+        def visit_If(self, n):
+            self.generic_visit(n)
+            for _ in range(4):
+                if not n.orelse:
+                    break
+                t = n.test
+                if isinstance(t, ast.UnaryOp) and isinstance(t.op, ast.Not):
+                    n.test = t.operand
+                    n.body, n.orelse = n.orelse, n.body
+                    continue
+                if isinstance(t, ast.Compare) and len(t.ops) == 1 and type(t.ops[0]) in _SWAP_OPS:
+                    t.ops = [_SWAP_OPS[type(t.ops[0])]()]
+                    n.body, n.orelse = n.orelse, n.body
+                break
+            return n
+    tree = C().visit(tree)
+    ast.fix_missing_locations(tree)
+    return tree
+
+
 class Module:
     def __init__(self, name, path, relpath, source):
         self.name = name
         self.path = path
         self.relpath = relpath
         self.source = source
-        self.tree = ast.parse(source, filename=path)
+        self.tree = normalise_tree(ast.parse(source, filename=path))
         self.digest = hashlib.sha256(source.encode('utf-8')).hexdigest()[:16]
         self.imports = {}      # local alias -> dotted target ("pkg.mod" or "pkg.mod.attr")
         self._collect_imports()
@@ -163,7 +197,7 @@ class FuncInfo:
 
     def loc(self, node=None):
         node = node if node is not None else self.node
-        return '%s:%d' % (self.module.relpath, getattr(node, 'lineno', 0))
+        return '%s:%d' % (self.module.relpath, getattr(node, '_orig_lineno', getattr(node, 'lineno', 0)))
 
     @property
     def params(self):
